@@ -2,10 +2,12 @@ package verifsim
 
 import (
 	"crypto/sha256"
+	"encoding/json"
 	"errors"
 	"fmt"
 	"os"
 	"sort"
+	"strconv"
 	"strings"
 	"sync"
 	"time"
@@ -28,16 +30,17 @@ type JobRun struct {
 	jobs  map[string]map[string]any
 	step  int
 	// per run fault state
-	runSpec       map[string]any
-	seenSink      int
-	seenPoint     map[string]int
-	delivered     [][]string // batches that reached the sink in this run (canonical ids)
-	toTransform   [][]string
-	crashDirs     []string
-	lastRunFailed bool
+	runSpec        map[string]any
+	seenSink       int
+	seenPoint      map[string]int
+	delivered      [][]string // batches that reached the sink in this run (canonical ids)
+	toTransform    [][]string
+	crashDirs      []string
+	lastRunFailed  bool
 	failNextCommit bool
-	recMu         sync.Mutex     // transform workers report concurrently
-	consumed      map[string]int // job id -> number of source feed entries delivered by successful incremental runs
+	c18            *c18Track
+	recMu          sync.Mutex     // transform workers report concurrently
+	consumed       map[string]int // job id -> number of source feed entries delivered by successful incremental runs
 }
 
 func (r *JobRun) ev(format string, args ...any) {
@@ -315,13 +318,46 @@ func RunJobScenario(sc *Scenario) (vd *Verdict) {
 			r.M.Batch(op.DS, op.Ents)
 			r.Stats["commits"]++
 			r.ev("batch %d", len(op.Ents))
+			if r.c18 == nil {
+				r.c18 = &c18Track{changed: map[string]map[string]bool{}, prev: NewModel(), tokens: map[string]uint64{}}
+			}
+			if r.c18.changed[op.DS] == nil {
+				r.c18.changed[op.DS] = map[string]bool{}
+			}
+			for _, e := range op.Ents {
+				r.c18.changed[op.DS][CanonSpec(e).ID] = true
+			}
+			if r.c18.maxCommit == nil {
+				r.c18.maxCommit = map[string]int{}
+			}
+			if len(op.Ents) > r.c18.maxCommit[op.DS] {
+				r.c18.maxCommit[op.DS] = len(op.Ents)
+			}
 		case "addJob":
+			// predicates of MultiSource joins are CURIEs: resolve the markers against this hub's prefixes
+			if src, ok := op.M["source"].(map[string]any); ok {
+				if deps, ok := src["Dependencies"].([]any); ok {
+					for _, d := range deps {
+						for _, j := range d.(map[string]any)["joins"].([]any) {
+							jm := j.(map[string]any)
+							if p, ok := jm["_pred"].(string); ok {
+								jm["predicate"] = r.H.curie(p)
+							}
+						}
+					}
+				}
+			}
 			if err := r.H.AddJobJSON(op.M); err != nil {
 				fail(viol(sc.Property, "job-config", "job-rejected", "AddJob: %v", err), i)
 				return
 			}
 			r.jobs[fmt.Sprint(op.M["id"])] = op.M
 			r.ev("addJob")
+		case "runFix":
+			if v := r.runFixOp(op, i); v != nil {
+				fail(v, i)
+				return
+			}
 		case "tick":
 			if v := r.tickOp(op, i); v != nil {
 				fail(v, i)
@@ -849,4 +885,218 @@ func keysOfInt(m map[string]int) []string {
 	}
 	sort.Strings(l)
 	return l
+}
+
+// --- C18: MultiSource dependency tracking --------------------------------------------------------
+
+type c18Join struct {
+	DS      string
+	Pred    string
+	Inverse bool
+}
+
+func parseDeps(cfg map[string]any) (main string, deps map[string][][]c18Join) {
+	src, _ := cfg["source"].(map[string]any)
+	main = fmt.Sprint(src["Name"])
+	deps = map[string][][]c18Join{}
+	l, _ := src["Dependencies"].([]any)
+	for _, x := range l {
+		m := x.(map[string]any)
+		var joins []c18Join
+		for _, j := range m["joins"].([]any) {
+			jm := j.(map[string]any)
+			inv, _ := jm["inverse"].(bool)
+			joins = append(joins, c18Join{DS: fmt.Sprint(jm["dataset"]), Pred: markerToFull(fmt.Sprint(jm["_pred"])), Inverse: inv})
+		}
+		ds := fmt.Sprint(m["dataset"])
+		deps[ds] = append(deps[ds], joins)
+	}
+	return
+}
+
+// reach follows a join path from a start entity over the graph of a model.
+func reach(m *Model, startDS string, start string, joins []c18Join) map[string]bool {
+	cur := map[string]bool{start: true}
+	prev := startDS
+	for _, j := range joins {
+		next := map[string]bool{}
+		scope := []string{prev, j.DS}
+		for s := range cur {
+			var rel map[relPair]bool
+			if j.Inverse {
+				rel = m.In(s, j.Pred, scope)
+			} else {
+				rel = m.Out(s, j.Pred, scope)
+			}
+			for p := range rel {
+				next[p[1]] = true
+			}
+		}
+		cur = next
+		prev = j.DS
+	}
+	return cur
+}
+
+type c18Track struct {
+	changed map[string]map[string]bool // dataset -> ids written since the last fixpoint
+	prev    *Model                     // model at the last fixpoint
+	tokens  map[string]uint64          // dependency tokens at the last look
+	maxCommit map[string]int           // dataset -> largest number of entities one commit wrote since the last fixpoint
+}
+
+// runFixOp runs the job until its continuation token stops changing and checks what was emitted.
+func (r *JobRun) runFixOp(op *Op, i int) *Violation {
+	id := op.S
+	cfg := r.jobs[id]
+	if cfg == nil {
+		return viol("C18", "harness", "invalid", "unknown job %s", id)
+	}
+	if r.c18 == nil {
+		r.c18 = &c18Track{changed: map[string]map[string]bool{}, prev: NewModel(), tokens: map[string]uint64{}}
+	}
+	main, deps := parseDeps(cfg)
+	spec := op.M
+	if spec == nil {
+		spec = map[string]any{}
+	}
+	emitted := map[string]bool{}
+	lastTok := ""
+	firstEver := false
+	if st, _ := r.H.Full.Sched.GetJobState(id); st == nil || st.ContinuationToken == "" {
+		firstEver = true
+	}
+	for round := 0; round < 8; round++ {
+		runSpec := map[string]any{}
+		if round == 0 {
+			runSpec = spec
+		}
+		r.installFaults(id, runSpec)
+		_, ended, err := r.H.RunJobToEnd(id, "incremental", 2*time.Hour)
+		r.clearFaults()
+		if err != nil || !ended {
+			return viol("C18", "job-run", "run-failed", "run %d: %v ended=%v", round, err, ended)
+		}
+		r.Stats["job_runs"]++
+		for _, b := range r.delivered {
+			for _, x := range b {
+				emitted[x] = true
+			}
+		}
+		res := r.H.LastResult(id)
+		lastErr, _ := res["lastError"].(string)
+		if lastErr != "" && len(runSpec) == 0 {
+			return viol("C18", "job-run", "run-failed", "fault-free run %d failed: %s", round, lastErr)
+		}
+		st, err := r.H.Full.Sched.GetJobState(id)
+		if err != nil || st == nil {
+			return viol("C18", "job-run", "no-state", "no job state: %v", err)
+		}
+		// dependency tokens only move forward
+		var tok struct {
+			MainToken        string
+			DependencyTokens map[string]struct{ Token string }
+		}
+		if st.ContinuationToken != "" {
+			if err := json.Unmarshal([]byte(st.ContinuationToken), &tok); err != nil {
+				return viol("C18", "tokens", "unreadable-token", "token %q: %v", st.ContinuationToken, err)
+			}
+			for ds, t := range tok.DependencyTokens {
+				n, _ := strconv.ParseUint(t.Token, 10, 64)
+				if n < r.c18.tokens[ds] {
+					return viol("C18", "tokens", "dependency-token-went-back", "token of dependency %s went from %d to %d", ds, r.c18.tokens[ds], n)
+				}
+				r.c18.tokens[ds] = n
+			}
+		}
+		if lastErr == "" && st.ContinuationToken == lastTok {
+			break
+		}
+		lastTok = st.ContinuationToken
+		if round == 7 {
+			return viol("C18", "job-run", "no-fixpoint", "continuation tokens still change after 8 runs")
+		}
+	}
+	r.ev("runFix emitted=%d", len(emitted))
+	// emitted entities come from the main dataset
+	mainIDs := map[string]bool{}
+	if d := r.M.DS[main]; d != nil {
+		for id := range d.Latest {
+			mainIDs[id] = true
+		}
+	}
+	for x := range emitted {
+		if !mainIDs[x] {
+			return viol("C18", "dependency-tracking", "emitted-foreign-entity", "the job emitted %s which is not an entity of the main dataset %s", shortURI(x), main)
+		}
+	}
+	// expected: changed main entities + live main entities connected to changed dependency entities (a main
+	// entity whose latest version is deleted has nothing to re-emit; it is emitted when it changes itself)
+	liveMain := map[string]bool{}
+	if d := r.M.DS[main]; d != nil {
+		for id := range d.Latest {
+			if !d.LatestOf(id).Deleted {
+				liveMain[id] = true
+			}
+		}
+	}
+	want := map[string]string{}
+	if firstEver {
+		for x := range mainIDs {
+			want[x] = "first run emits every main entity"
+		}
+	}
+	for x := range r.c18.changed[main] {
+		want[x] = "changed itself"
+	}
+	for ds, paths := range deps {
+		for x := range r.c18.changed[ds] {
+			for _, joins := range paths {
+				for y := range reach(r.M, ds, x, joins) {
+					if liveMain[y] {
+						want[y] = fmt.Sprintf("connected to changed %s entity %s", ds, shortURI(x))
+					}
+				}
+				if len(joins) > 0 && !joins[0].Inverse && !firstEver {
+					// a removed first-hop outgoing link counts as it stood at the previous catch-up
+					first := reach(r.c18.prev, ds, x, joins[:1])
+					for mid := range first {
+						for y := range reach(r.M, joins[0].DS, mid, joins[1:]) {
+							if liveMain[y] {
+								want[y] = fmt.Sprintf("was connected to changed %s entity %s through a first-hop link that has been removed", ds, shortURI(x))
+							}
+						}
+					}
+				}
+			}
+		}
+	}
+	for _, y := range sortedKeys(want) {
+		if !emitted[y] {
+			cls := "changed-main-entity-not-emitted"
+			if strings.HasPrefix(want[y], "connected") {
+				cls = "dependent-main-entity-not-emitted"
+			} else if strings.HasPrefix(want[y], "was connected") {
+				cls = "previously-linked-main-entity-not-emitted"
+				// KF-C18-1: the look back in time uses the stamp of the change preceding the current page; when one
+				// commit to the dependency dataset is larger than the job's batch size that change belongs to the
+				// same commit, so the link is already gone at that instant
+				for ds := range deps {
+					if bs := intOf(cfg, "batchSize"); bs > 0 && r.c18.maxCommit[ds] > bs {
+						cls += ":commit-larger-than-batch"
+						break
+					}
+				}
+			} else if strings.HasPrefix(want[y], "first run") {
+				cls = "first-run-incomplete"
+			}
+			return viol("C18", "dependency-tracking", cls, "main entity %s (%s) was not emitted by the runs up to the fixpoint; emitted: %v", shortURI(y), want[y], shortAll(sortedKeys(emitted)))
+		}
+	}
+	r.Stats["dependency_checks"]++
+	r.Stats["expected_emissions"] += int64(len(want))
+	r.c18.changed = map[string]map[string]bool{}
+	r.c18.maxCommit = map[string]int{}
+	r.c18.prev = r.M.Clone()
+	return nil
 }
